@@ -193,6 +193,37 @@ pub fn cmd_transcript(args: &[String]) {
         }
         emit(&mut out, &mut rep, format!("container_resize i={} {}->{}->{}", i, l0, l1, l2), im);
     }
+    // a clone holds the bytes of its source in every protection state a clone exists for (read-only ones included), and keeps
+    // them after the source is gone
+    for i in 0..60u64 {
+        let l0 = [0usize, 1, 16, 32, 33, 100, 4096, 4097][(i % 8) as usize];
+        let data = rng.bytes(l0);
+        let mut im: Vec<(String, Result<Vec<u8>, String>)> = vec![];
+        im.push(("Vec<u8>".into(), { let v = data.clone(); let c = v.clone(); drop(v); Ok(c) }));
+        #[cfg(feature = "nightly")]
+        {
+            use dryoc::protected::*;
+            let run = |state: u8| -> Result<Vec<u8>, String> {
+                match catch(|| -> Result<Vec<u8>, String> {
+                    let h = HeapBytes::from(&data[..]);
+                    let e = |e: std::io::Error| e.to_string();
+                    Ok(match state {
+                        0 => { let c = h.clone(); drop(h); c.as_slice().to_vec() }
+                        1 => { let p = h.mlock().map_err(e)?; let c = p.clone(); drop(p); c.as_slice().to_vec() }
+                        2 => { let p = h.mlock().map_err(e)?.mprotect_readonly().map_err(e)?; let c = p.clone(); drop(p); c.as_slice().to_vec() }
+                        3 => { let p = h.mlock().map_err(e)?.munlock().map_err(e)?; let c = p.clone(); drop(p); c.as_slice().to_vec() }
+                        4 => { let p = h.mlock().map_err(e)?.munlock().map_err(e)?.mprotect_readonly().map_err(e)?; let c = p.clone(); drop(p); c.as_slice().to_vec() }
+                        5 => { let p = HeapBytes::from_slice_into_readonly_locked(&data).map_err(|e| e.to_string())?; let c = p.clone(); let c2 = c.clone(); drop(p); drop(c); c2.as_slice().to_vec() }
+                        _ => { let p = h.mlock().map_err(e)?.mprotect_readonly().map_err(e)?; let c = p.clone(); drop(p); let w = c.mprotect_readwrite().map_err(e)?; w.as_slice().to_vec() }
+                    })
+                }) { Ok(r) => r, Err(p) => Err(format!("PANIC {}", p)) }
+            };
+            for (st, name) in ["HeapBytes", "Locked<HeapBytes>", "LockedRO<HeapBytes>", "Unlocked<HeapBytes>", "UnlockedRO<HeapBytes>", "from_slice_into_readonly_locked, cloned twice", "LockedRO clone made writable"].iter().enumerate() {
+                im.push((name.to_string(), run(st as u8)));
+            }
+        }
+        emit(&mut out, &mut rep, format!("container_clone i={} len={}", i, l0), im);
+    }
     // decoding the same document gives the same verdict and the same bytes whatever container receives them
     for n in [0usize, 1, 16, 31, 32, 33, 64] {
         let elems: Vec<u8> = (0..n).map(|i| (i as u8).wrapping_mul(5) | 1).collect();
